@@ -239,37 +239,6 @@ Theorem C02_calc2_sconn_life : forall k rho ext, (is_alloc k = true -> ext = tru
 Proof. exact sconn_life. Qed.
 Print Assumptions C02_calc2_sconn_life.
 
-(* ---- [stage 6] stored values (TValCtor / TValDtor; keys KVal sk v are covered by every theorem above that
-   quantifies over k: life cycle per call, per step and per run, balance at the end) ---- *)
-
-(* (a) balance per store kind and value *)
-Theorem C02_calc2_values_balanced : forall e pre script sk v,
-  (forall p q, tevs (r_tr (exec e pre script)) = p ++ q ->
-     (cnt (KVal sk v) ADtor p <= cnt (KVal sk v) AStart p)%nat) /\
-  (r_roots (exec e pre script) = 1%nat \/ cthrows e = true ->
-   cnt (KVal sk v) AStart (tevs (r_tr (exec e pre script))) = cnt (KVal sk v) ADtor (tevs (r_tr (exec e pre script)))).
-Proof. exact C02_values_balanced. Qed.
-Print Assumptions C02_calc2_values_balanced.
-
-(* (b) let_value: the stored values are destroyed after the whole destructor cascade of the successor operation *)
-Theorem C02_calc2_letv_dtor_order : forall a b v sb,
-  dtor (Bin BLetV a b) (OStore SLetV v (OCompl OFin sb)) = dtor b sb ++ [TValDtor SLetV v].
-Proof. exact letv_dtor_order. Qed.
-Print Assumptions C02_calc2_letv_dtor_order.
-
-(* (c) let_error / finally (eager kinds): the final / completion operation is destroyed, then the stored error / result;
-   let_value keeps both until its destructor.  h = the store the node holds ([held]) *)
-Theorem C02_calc2_seq_final_order : forall k h b sb tr o,
-  seq_final k h b sb tr o =
-  if eager_dtor k then (OFin, tr ++ dtor b sb ++ dtor_ev h, Some o) else (wrap h (OCompl OFin sb), tr, Some o).
-Proof. exact seq_final_order. Qed.
-Print Assumptions C02_calc2_seq_final_order.
-
-(* the store is constructed before the first child's operation is destroyed (and before the consumer is connected) *)
-Theorem C02_calc2_dtor1_order : forall h a sa, dtor1 h a sa = ctor_ev h ++ dtor a sa.
-Proof. exact dtor1_order. Qed.
-Print Assumptions C02_calc2_dtor1_order.
-
 (* ---- a concrete run:
    let_value(leaf 1, when_all(stop_when(leafN 2, leaf 3),
                               repeat_effect_until(retry_when(sequence(schedule(ctx 1), leaf 4), just 0), [false]))) ---- *)
@@ -289,14 +258,13 @@ Definition C02_calc2_script : list sev :=
    stop_when's children alive until the owner destroys the root: trigger (3) before source (2) *)
 Example C02_calc2_ex_trace :
   r_tr (exec C02_calc2_ex false C02_calc2_script) =
-  [XT (TLeafStart 1 false true 0 0 0 0); XT (TValCtor SLetV 5); XT (TLeafDtor 1);
+  [XT (TLeafStart 1 false true 0 0 0 0); XT (TLeafDtor 1);
    XT (TLeafStart 2 false true 0 0 0 0); XT (TLeafStart 3 false true 0 0 0 0);
    XT (TSchedStart 10 1); XT (TSchedDtor 1); XT (TLeafStart 4 false true 0 0 0 1); XT (TLeafDtor 4);
    XT (TGate true); XT (TSchedStart 10 1); XT (TSchedDtor 1); XT (TLeafStart 4 false true 0 0 0 1);
    XT (TLeafDtor 4); XT (TPred false); XT (TSchedStart 10 1); XT (TSchedDtor 1);
    XT (TLeafStart 4 false true 0 0 0 1); XT (TLeafStop 2); XT (TLeafStop 4); XT (TLeafDtor 4);
-   XT (TPred true); XT (TValCtor SAll 0); XRoot ODone 0 1; XRootDtor; XT (TLeafDtor 3); XT (TLeafDtor 2);
-   XT (TValDtor SAll 0); XT (TValDtor SLetV 5)].
+   XT (TPred true); XRoot ODone 0 1; XRootDtor; XT (TLeafDtor 3); XT (TLeafDtor 2)].
 Proof. vm_compute. reflexivity. Qed.
 
 Example C02_calc2_ex_counts :
@@ -343,9 +311,9 @@ Example C02_calc2_ex_throw_trace2 :
   r_tr (exec C02_calc2_ex_t false [EvLeaf 3%nat (OVal 6) 0%nat; EvLeaf 4%nat (OValT 6) 0%nat; EvRun 1%nat;
                                    EvLeaf 1%nat (OValT 5) 2%nat]) =
   [XT (TLeafStart 1 false true 0 0 0 0); XT (TLeafStart 2 false true 0 0 0 0);
-   XT (TLeafStart 3 false true 0 0 0 0); XT (TValCtor SLetV 6); XT (TLeafDtor 3); XT (TLeafStart 4 false true 0 0 0 0);
-   XT (TLeafDtor 4); XT (TSchedStart 10 1); XT (TValCtor SAll 0); XT (TLeafStop 2); XRoot (OErr 77) 0 2; XRootDtor;
-   XT (TLeafDtor 2); XT (TLeafDtor 1); XT (TSchedDtor 1); XT (TValDtor SLetV 6); XT (TValDtor SAll 0)].
+   XT (TLeafStart 3 false true 0 0 0 0); XT (TLeafDtor 3); XT (TLeafStart 4 false true 0 0 0 0);
+   XT (TLeafDtor 4); XT (TSchedStart 10 1); XT (TLeafStop 2); XRoot (OErr 77) 0 2; XRootDtor;
+   XT (TLeafDtor 2); XT (TLeafDtor 1); XT (TSchedDtor 1)].
 Proof. vm_compute. reflexivity. Qed.
 
 Example C02_calc2_ex_throw_counts :
@@ -367,8 +335,8 @@ Definition C02_calc2_ex_a : sexpr :=
 
 Example C02_calc2_ex_alloc_trace :
   r_tr (exec C02_calc2_ex_a false [EvLeaf 1%nat (OVal 5) 0%nat; EvLeaf 2%nat (OVal 1) 0%nat]) =
-  [XT (TAlloc 7); XT (TLeafStart 1 false true 0 0 0 0); XT (TValCtor SLetV 5); XT (TLeafDtor 1); XT (TAlloc 9); XT (TFree 9);
-   XRoot (OErr 78) 0 0; XSkip; XRootDtor; XT (TValDtor SLetV 5); XT (TFree 7)].
+  [XT (TAlloc 7); XT (TLeafStart 1 false true 0 0 0 0); XT (TLeafDtor 1); XT (TAlloc 9); XT (TFree 9);
+   XRoot (OErr 78) 0 0; XSkip; XRootDtor; XT (TFree 7)].
 Proof. vm_compute. reflexivity. Qed.
 
 Example C02_calc2_ex_connect_throw :
